@@ -178,7 +178,7 @@ def main(args):
     # 4. report
     confirmed, harness_problem = (0, False)
     if viols:
-        confirmed, harness_problem = _report_violations(viols, seed, tier)
+        confirmed, harness_problem = driver.report_violations(PROP, viols, seed, tier, gen07.violation_pred)
     driver.print_known(PROP, known_counts)
     wall = time.monotonic() - t0
     distinct = total.get("distinct", set())
